@@ -208,3 +208,91 @@ Proof.
     destruct (pm_step t s o) as [s1 out] eqn:E. simpl in *.
     destruct (IH s1 H1) as [I1 I2]. destruct (pm_run t s1 r) as [s2 outs]. simpl in *. auto.
 Qed.
+
+(* ---- the wrapper never writes into the configuration it was given ---- *)
+Lemma pm_wstep_keeps_cfg : forall t e o,
+  pe_cfg (fst (pm_wstep t e o)) = pe_cfg e /\ pe_id (fst (pm_wstep t e o)) = pe_id e.
+Proof. intros t e o. unfold pm_wstep. destruct (pw_step t (pe_w e) o); split; reflexivity. Qed.
+
+Lemma pm_map_step_id_cfg : forall t m id o n e',
+  rc_get (fst (pm_map_step_id t m id o)) n = Some e' ->
+  exists e, rc_get m n = Some e /\ pe_cfg e' = pe_cfg e /\ pe_id e' = pe_id e.
+Proof.
+  intros t m id o. induction m as [|[k e] r IH]; intros n e' H; simpl in *; try discriminate.
+  destruct (pe_id e =? id).
+  - destruct (pm_wstep_keeps_cfg t e o) as [Hc Hi]. destruct (pm_wstep t e o) as [e1 outs]. simpl in *.
+    destruct (k =? n).
+    + inversion H; subst. exists e. auto.
+    + exists e'. auto.
+  - destruct (pm_map_step_id t r id o) as [r' outs] eqn:E. simpl in *. destruct (k =? n).
+    + inversion H; subst. exists e'. auto.
+    + apply IH. exact H.
+Qed.
+
+(* after any step every table entry either was there before with the same configuration value and
+   identity, or holds exactly the (first) configuration value of that name just loaded by UpdateAll *)
+Theorem pm_step_keeps_cfg : forall t s o, pm_wf s ->
+  forall n e', rc_get (pm_map (fst (pm_step t s o))) n = Some e' ->
+  (exists e, rc_get (pm_map s) n = Some e /\ pe_cfg e' = pe_cfg e /\ pe_id e' = pe_id e) \/
+  (exists cfgs, o = PMUpdate cfgs /\ rc_first cfgs n = Some (pe_cfg e')).
+Proof.
+  intros t s o Hwf n e' H. destruct o as [cfgs|id now|id h|name now re ro|name|]; simpl in H.
+  - pose proof (pm_update_converges t s cfgs Hwf) as Hc.
+    destruct (pm_update t s cfgs) as [[s' outs] evs]. simpl in H.
+    destruct Hc as (_ & _ & C3 & C4 & _). right. exists cfgs. split; auto.
+  - left. unfold pm_by_id in H.
+    pose proof (pm_map_step_id_cfg t (pm_map s) id (PWTick now) n e') as Hm.
+    destruct (pm_map_step_id t (pm_map s) id (PWTick now)) as [m' o1].
+    destruct (pm_dead_step_id t (pm_dead s) id (PWTick now)) as [d' o2]. simpl in *. auto.
+  - left. unfold pm_by_id in H.
+    pose proof (pm_map_step_id_cfg t (pm_map s) id (PWHealth h) n e') as Hm.
+    destruct (pm_map_step_id t (pm_map s) id (PWHealth h)) as [m' o1].
+    destruct (pm_dead_step_id t (pm_dead s) id (PWHealth h)) as [d' o2]. simpl in *. auto.
+  - left. destruct (rc_get (pm_map s) name) as [e|] eqn:Hg; simpl in H.
+    + destruct (pm_wstep_keeps_cfg t e (PWResp now re ro)) as [Hc Hi].
+      destruct (pm_wstep t e (PWResp now re ro)) as [e1 outs]. simpl in *.
+      destruct (name =? n) eqn:E.
+      * apply Z.eqb_eq in E. subst n. rewrite rc_get_set_same in H. inversion H; subst. exists e. auto.
+      * rewrite rc_get_set_other in H; [exists e'; auto|]. intros Heq. subst. rewrite Z.eqb_refl in E. discriminate.
+    + exists e'. auto.
+  - left. destruct (rc_get (pm_map s) name) as [e|] eqn:Hg; simpl in H.
+    + destruct (pm_wstep_keeps_cfg t e PWWork) as [Hc Hi].
+      destruct (pm_wstep t e PWWork) as [e1 outs]. simpl in *.
+      destruct (name =? n) eqn:E.
+      * apply Z.eqb_eq in E. subst n. rewrite rc_get_set_same in H. inversion H; subst. exists e. auto.
+      * rewrite rc_get_set_other in H; [exists e'; auto|]. intros Heq. subst. rewrite Z.eqb_refl in E. discriminate.
+    + exists e'. auto.
+  - destruct (pm_stop_all t (pm_map s)) as [d outs]. simpl in H. discriminate.
+Qed.
+
+Lemma pm_stored_cfg_history_gen : forall t (L : Z -> rc_cfg -> Prop) ops s, pm_wf s ->
+  (forall n e, rc_get (pm_map s) n = Some e -> L n (pe_cfg e)) ->
+  (forall cfgs n c, In (PMUpdate cfgs) ops -> rc_first cfgs n = Some c -> L n c) ->
+  forall n e, rc_get (pm_map (fst (pm_run t s ops))) n = Some e -> L n (pe_cfg e).
+Proof.
+  intros t L ops. induction ops as [|o r IH]; intros s Hwf Hs Hl n e H; simpl in H.
+  - apply Hs; auto.
+  - destruct (pm_step_inv t s o Hwf) as [Hwf1 _].
+    pose proof (pm_step_keeps_cfg t s o Hwf) as Hk.
+    destruct (pm_step t s o) as [s1 out] eqn:E. simpl in *.
+    assert (Hs1 : forall n0 e0, rc_get (pm_map s1) n0 = Some e0 -> L n0 (pe_cfg e0)).
+    { intros n0 e0 Hg. destruct (Hk n0 e0 Hg) as [(e1 & A & B & _)|(cfgs & A & B)].
+      - rewrite B. apply Hs; auto.
+      - subst o. apply (Hl cfgs n0); [left; reflexivity|exact B]. }
+    specialize (IH s1 Hwf1 Hs1). destruct (pm_run t s1 r) as [s2 outs]. simpl in *.
+    apply IH; auto. intros cfgs n0 c Hin. apply Hl. right; assumption.
+Qed.
+
+(* over every history: the configuration value a wrapper holds is one that UpdateAll was given for
+   that name (the first entry of the name in some loaded set) — no operation of the wrapper or the
+   manager ever produces a different value *)
+Theorem pm_stored_cfg_history : forall t ops n e,
+  rc_get (pm_map (fst (pm_run t pm_init ops))) n = Some e ->
+  exists cfgs, In (PMUpdate cfgs) ops /\ rc_first cfgs n = Some (pe_cfg e).
+Proof.
+  intros t ops n e H.
+  apply (pm_stored_cfg_history_gen t (fun n c => exists cfgs, In (PMUpdate cfgs) ops /\ rc_first cfgs n = Some c)
+           ops pm_init pm_wf_init); auto.
+  - intros n0 e0 H0. discriminate.
+  - intros cfgs n0 c Hin Hf. exists cfgs. auto.
+Qed.
